@@ -96,10 +96,11 @@ class CIMIntInvariant:
     __new__ with a value outside [minvalue, maxvalue] while
     config.ENFORCE_INTEGER_RANGE is true."""
 
-    def __init__(self):
+    def __init__(self, ctx=None):
         self.checked = 0
         self.bad = []
         self.active = False
+        self.ctx = ctx      # to attribute a bad object to the running case
 
     def start(self):
         if mon is None:
@@ -130,7 +131,8 @@ class CIMIntInvariant:
             v = int(retval)
             if not lo <= v <= hi:
                 if len(self.bad) < 5:
-                    self.bad.append('%s(%d)' % (cls.__name__, v))
+                    self.bad.append(('%s(%d)' % (cls.__name__, v),
+                                     getattr(self.ctx, 'case_index', None)))
         except Exception:  # pylint: disable=broad-except
             pass
 
@@ -138,10 +140,16 @@ class CIMIntInvariant:
         if self.checked:
             ctx.count('inv:CIMInt.__new__.in-range', self.checked)
             self.checked = 0
-        for b in self.bad:
-            ctx.violation('invariant.CIMInt.out-of-range-object',
-                          'a CIM integer object holds a value outside the '
-                          'range of its type: %s' % b, {'value': b})
+        for b, case in self.bad:
+            now = ctx.case_index
+            if case is not None:
+                ctx.case_index = case     # the case that made the object
+            try:
+                ctx.violation('invariant.CIMInt.out-of-range-object',
+                              'a CIM integer object holds a value outside '
+                              'the range of its type: %s' % b, {'value': b})
+            finally:
+                ctx.case_index = now
         self.bad = []
 
     def stop(self):
